@@ -569,6 +569,17 @@ def pk_cfgs(tier):
     C["r11-varying-consumer"] = dict(recipe=(1, 1), n_pallets=3, comb_only=True, out_delay="sym-each", mid_cap=1, sym=("pd",))
     C["r12-blocked-out"] = dict(recipe=(1, 2), n_pallets=3, comb_only=True, out_delay="sym", mid_cap=1, sym=("ip", "pd"))
     C["r12-comb-only"] = dict(recipe=(1, 2), n_pallets=2, comb_only=True, out_delay="sym")
+    # Splitter / Combiner next to conveyors and fleets (index policies; FIRST_AVAILABLE explicitly rejects non-Buffer edges there)
+    C["r12-idx-cconv-out"] = dict(recipe=(1, 2), n_pallets=2, split_sel=0, out_kind="cconv", out_cap=3, sym=("ii", "sd"))
+    C["r12-rr2-cconv-out"] = dict(recipe=(1, 2), n_pallets=2, split_out=2, split_sel="ROUND_ROBIN", out_kind="cconv", out_cap=3, sym=("ii", "sd"))
+    C["r12-idx-sconv-out"] = dict(recipe=(1, 2), n_pallets=2, split_sel=0, out_kind="sconv", out_cap=3, sym=("ii", "sd"))
+    C["r12-nb-idx-cconv-out"] = dict(recipe=(1, 2), n_pallets=2, split_sel=0, out_kind="cconv", out_cap=3, sym=("ii", "sd"), blocking=True, split_blocking=False)
+    C["r12-nb-fa-cconv-out"] = dict(recipe=(1, 2), n_pallets=2, out_kind="cconv", out_cap=3, sym=("ii", "sd"), blocking=True, split_blocking=False)
+    C["r12-nb-idx-sconv-out"] = dict(recipe=(1, 2), n_pallets=2, split_sel=0, out_kind="sconv", out_cap=3, sym=("ii", "sd"), blocking=True, split_blocking=False)
+    C["r11-idx-cconv-mid"] = dict(recipe=(1, 1), n_pallets=2, split_in_sel=0, comb_out_sel=0, mid_kind="cconv", mid_cap=2, sym=("ii", "sd"))
+    C["r11-nb-idx-cconv-mid"] = dict(recipe=(1, 1), n_pallets=3, split_in_sel=0, comb_out_sel=0, mid_kind="cconv", mid_cap=2, sym=("ip", "sd"), blocking=False, split_blocking=True)
+    C["r11-idx-sconv-mid"] = dict(recipe=(1, 1), n_pallets=2, split_in_sel=0, comb_out_sel=0, mid_kind="sconv", mid_cap=2, sym=("ii", "sd"))
+    C["r11-idx-fleet-mid"] = dict(recipe=(1, 1), n_pallets=2, split_in_sel=0, comb_out_sel=0, mid_kind="fleet", mid_cap=2, sym=("ii", "sd"), until=20, conv_kw=dict(fdelay=1, transit=0.5))
     if not q:
         C["r122"] = dict(recipe=(1, 2, 2), n_pallets=2, sym=("ii", "pd"))
         C["r12-3pallets"] = dict(recipe=(1, 2), n_pallets=3)
@@ -606,11 +617,11 @@ PROPS["C16"] = {
 _c10_jobs = PROPS["C10"]["jobs"]
 PROPS["C10"]["jobs"] = lambda tier: _c10_jobs(tier) + pk_jobs("C10", tier, names=["r11", "r12", "r13-cap1", "r111", "r11-rr2"])
 _c09_jobs = PROPS["C09"]["jobs"]
-PROPS["C09"]["jobs"] = lambda tier: _c09_jobs(tier) + pk_jobs("C09", tier, names=["r12-nonblocking", "r13-nonblocking-split", "r11"]) + srcfan_jobs("C09", tier)
+PROPS["C09"]["jobs"] = lambda tier: _c09_jobs(tier) + pk_jobs("C09", tier, names=["r12-nonblocking", "r13-nonblocking-split", "r11", "r12-nb-idx-cconv-out", "r12-nb-fa-cconv-out", "r11-nb-idx-cconv-mid"]) + srcfan_jobs("C09", tier)
 _c18_jobs = PROPS["C18"]["jobs"]
 PROPS["C18"]["jobs"] = lambda tier: _c18_jobs(tier) + pk_jobs("C18", tier, names=["r11", "r12", "r12-comb-only"], extra_kw={"until": "sym"})
 _c03_jobs = PROPS["C03"]["jobs"]
-PROPS["C03"]["jobs"] = lambda tier: _c03_jobs(tier) + pk_jobs("C03", tier, names=["r11", "r12", "r11-rr2", "r12-nonblocking", "r12-comb-only", "r11-lifo-mid"])
+PROPS["C03"]["jobs"] = lambda tier: _c03_jobs(tier) + pk_jobs("C03", tier, names=["r11", "r12", "r11-rr2", "r12-nonblocking", "r12-comb-only", "r11-lifo-mid", "r12-idx-cconv-out", "r12-nb-idx-cconv-out", "r11-nb-idx-cconv-mid", "r11-idx-fleet-mid"])
 _c08_jobs = PROPS["C08"]["jobs"]
 PROPS["C08"]["jobs"] = lambda tier: _c08_jobs(tier) + pk_jobs("C08", tier, names=["r11", "r12", "r111", "r11-rr2", "r11-split-in-idx", "r12-blocked-out", "r11-varying-consumer", "no-combiner-rr"])
 PROPS["C08"]["required_witnesses"] = PROPS["C08"]["required_witnesses"] + ["C08:combiner-residence-checked"]
@@ -674,7 +685,8 @@ def _jobs_c20(tier):
         kw["props"] = ("C20",)
         periodic = any(cfg.get(k) in ("fleet", "sconv") for k in ("e1", "e2"))
         jobs.append({"name": "M2/combo/" + name, "spec": ("vfy.m2s", "combo", kw), "budget_s": (6 if periodic else 10) if q else 30, "bounds": str(cfg), "validate_every": 25})
-    for name in ["r11", "r12-nonblocking", "r11-rr2", "r12-lifo-items", "r111-itemdelay"]:
+    for name in ["r11", "r12-nonblocking", "r11-rr2", "r12-lifo-items", "r111-itemdelay", "r12-idx-cconv-out", "r12-rr2-cconv-out", "r12-idx-sconv-out", "r12-nb-idx-cconv-out",
+                 "r12-nb-fa-cconv-out", "r12-nb-idx-sconv-out", "r11-idx-cconv-mid", "r11-nb-idx-cconv-mid", "r11-idx-sconv-mid", "r11-idx-fleet-mid"]:
         kw = dict(pk_cfgs(tier)[name])
         kw["props"] = ("C20",)
         jobs.append({"name": "M2/pk/" + name, "spec": ("vfy.m2p", "pk", kw), "budget_s": 10 if q else 60, "bounds": str(kw)})
@@ -695,5 +707,5 @@ PROPS["C20"] = {
     "twin": lambda tier: ("vfy.m2s", "combo", dict(props=("C20",), n_items=1, twin=True)),
     "bounds": {"quick": "45 component combinations + 3 pallet lines, <=3 items per source (2 with periodic components), 1-3 symbolic delays in [0,2]",
                "thorough": "85 combinations"},
-    "outside": "Splitter/Combiner next to Fleet or conveyor edges (rejected by the library with 'Unsupported edge type' under some policies); graphs with cycles; RANDOM policy",
+    "outside": "Splitter/Combiner with the FIRST_AVAILABLE policy next to Fleet or conveyor edges (rejected by the library with 'Unsupported edge type'; index policies are inside); graphs with cycles; RANDOM policy",
 }
